@@ -295,4 +295,5 @@ func (opts GeneratorOptions) genFieldMask(t *rapid.T, msg protoreflect.Message) 
 	for _, path := range paths {
 		pathsList.Append(protoreflect.ValueOfString(path))
 	}
+	msg.Set(pathsField, protoreflect.ValueOfList(pathsList))
 }
